@@ -1,6 +1,7 @@
 import CV.Model.QuantFloatReplica
 import CV.Proofs.QuantExamples
 import CV.Proofs.QuantCatLink
+import CV.Proofs.QuantFloatInstances
 /-!
 # C19 (component `quant`): the float constructors and `LeakyQuantizer::new` reject invalid input
 
@@ -52,7 +53,10 @@ example : ¬ ∃ m, LQ.new ⟨8, false⟩ 8 8 7 7 = .ok m := by
   rw [C19_leaky_new_iff (by decide)]; decide
 
 /-- **C19, `…_fast` constructors reject** too short / too long tables, entries that are not
-    `≥ 0` (D14), and normalisations that are not positive normal floats — for any `FOps` -/
+    `≥ 0` (D14), and normalisations that are not positive normal floats — for any `FOps`.
+    (A *weak* statement by nature: it unfolds the guard sequence at the head of the replica
+    `fastSetup`; its value is that the guards are there and come first — the replica itself is
+    tied to the crate by the correspondence, including the directed invalid-argument lines.) -/
 theorem C19_fast_rejects {F : Type} (o : FOps F) (B P : Nat) (probs : List F) (norm : Option F)
     (h : lenOk P probs.length = false ∨ probs.all (fun p => o.le o.zero p) = false ∨
       (∃ x, norm = some x ∧ (o.isNormal x = false ∨ o.signPos x = false))) :
@@ -104,8 +108,16 @@ theorem C19_fast_accepted_valid {F : Type} (o : FOps F) {B P : Nat} {probs : Lis
   rw [hn.1, hn.2]
   exact ⟨_, fastCdf_eq ok hf, cdfList_valid ok hf tb'⟩
 
-/-- **C19, `…_perfect` constructors reject** short / oversized tables, negative entries
-    anywhere in the table (D18), and non-normalisable tables -/
+/-- a real instance: the D4 `f32` table is accepted (`d4_setup`), TB-F1 holds on it by `decide`
+    (`d4_tbf1`), hence the constructed cdf is a `ValidCdf` — although the unclamped non-leaky
+    part exceeds `free` on this table (`d4_unclamped_exceeds`) -/
+example : ∃ cdf, fastCdf 32 24 d4.n d4.free (d4.hE f32Ops 32) = .ok cdf ∧ Cat.ValidCdf 32 24 cdf :=
+  C19_fast_accepted_valid f32Ops (by decide) (by decide) (by decide) d4_setup d4_tbf1
+
+/-- **C19, `…_perfect` constructors reject** short / oversized tables and negative entries
+    anywhere in the table (D18).  (Also a *weak* statement: it unfolds the first guards of the
+    replica `perfectPre`; that accepted results are valid is `cat`'s
+    `C19_validator_accepts_only_valid`, through which every `…_perfect` result passes.) -/
 theorem C19_perfect_rejects {F : Type} (o : FOps F) (toF64 : F → Float) (B P : Nat)
     (probs : List F)
     (h : probs.length < 2 ∨ probs.length > 2 ^ B - 1 ∨
